@@ -191,6 +191,7 @@ pub fn run(run: &Run) {
     run.rule("Primitive trees (depth <= 16 incl. deep chains, strings over all bytes, names over Unicode scalar values, boundary/random-bit finite reals, i32 boundaries, references, streams via Stream::new) serialised by the real writer and re-read: (i) as an indirect object framed by Storage::save (found in PdfBuilder output, parse_indirect_object), (ii) dictionary value, (iii) array element between integers (Primitive::serialize + parser::parse), (iv) operand of scn in serialize_ops/parse_ops; equality modulo Integer≡Number. distinct_nontrivial = distinct (value, placement)");
     run.assume("Integer(n) and Number(x) are identified when numerically equal; dictionary order ignored; stream /Length ignored");
     leaf_sweep(run);
+    if !run.quick() { crate::lanes::miri(run, "parse", &[11, 12, 13, 14, 15, 16], None); }
     let n = run.n(400_000, 6_000_000);
     par_for(n, |i| {
         let s = Src::fresh(Rng::derive(run.seed, 4, i));
